@@ -1026,6 +1026,16 @@ impl MerkleTree {
         nodes: &IntMap<Option<Node>>,
     ) -> Result<Either<Vec<StoreInfoInstruction>, ()>, HypercoreError> {
         if let Some(indexed) = indexed {
+            // The walk below climbs from the indexed node until it reaches `root`; that only
+            // terminates when `root` is the node itself or one of its ancestors.
+            if !flat_tree::Iterator::new(root).contains(indexed.index) {
+                return Err(HypercoreError::InvalidOperation {
+                    context: format!(
+                        "Tree node {} is not within the subtree of {}",
+                        indexed.index, root
+                    ),
+                });
+            }
             let mut iter = flat_tree::Iterator::new(indexed.index);
             let mut instructions: Vec<StoreInfoInstruction> = Vec::new();
             let mut p_nodes: Vec<Node> = Vec::new();
